@@ -9,6 +9,33 @@ VERIF = os.path.dirname(os.path.dirname(os.path.abspath(__file__)))
 TECH = 'Lean 4 theorems on a hand-written model + differential correspondence check + property probe'
 NOTE = 'Trusted: Lean kernel + {propext, Classical.choice, Quot.sound} (audited per theorem on every run); the hand-written model is tied to the C++ by a seeded differential test, not by proof; '
 CLAIMED = {
+    'C19': ('other', 'Lean 4 theorems on lock-discipline semantics + kernel-checked discipline of a lock table regenerated from the clang AST on every run '
+            '+ ThreadSanitizer probe (partial)',
+            'PARTIAL. Proved in Lean for any number of threads and any interleaving: if every plain access of a field happens while the '
+            'accessing thread holds the field\'s guard mutex, then any two accesses of the same field by different threads are separated by '
+            'a release of that mutex by the first and an acquisition by the second (no data race), and nobody else touches a guarded field '
+            'inside a critical section (critical sections are serial); thread-local discipline implies guardedness in every valid '
+            'interleaving; the decidable per-method check `scan` is sound; on the serial semantics a SharedVariable load returns a stored '
+            'value and SharedOptionalVariable hands each stored value to at most one consumer in store order. The model of the code is the '
+            'per-method lock/access event table regenerated from clang\'s AST of the working tree on every run; `table_disciplined` '
+            '(by decide) is re-checked by the kernel on it. Stage C runs the real classes with real threads under ThreadSanitizer with '
+            'consistency checks of the values read (report copies, shared values, consume-once).',
+            'Residue NOT carried by the theorems: the C++ memory model, std::mutex, compiler reordering, the scheduler - only exercised by '
+            'the TSan probe; tools/gen_locktable.py (AST -> event table) is a trusted translator that errs towards reporting; the theorems '
+            'assume a sequentially consistent interleaving of the summaries\' events. Category "other" so that the claim is not read as a '
+            'proof of the C++.',
+            'DESIGN.md section 6, C19'),
+    'C10': ('proof', TECH,
+            'Over the reals with every asin/acos/division guard discharged: normalisers return a value congruent mod 2pi inside their interval '
+            'for inputs in (-4pi,4pi); the quaternion-built matrix equals Rz*Ry*Rx for every association order Eigen uses; SmartRotation3D.R '
+            'is the same matrix after any history of init calls; all produced matrices are proper rotations; angles->rotation->angles (mod '
+            '2pi, |pitch| < pi/2) and rotation->angles->rotation (R in SO(3), |R20| < 1) round trips, quaternion scale invariance, 2D pair, '
+            'polar and spherical round trips. 25 theorems in RomeaProofs/Properties/C10.lean. Bit-exact differential for float and double '
+            '(model fmod validated against libm fmod on every run).',
+            NOTE + 'floating point is modelled, not verified: oracle tolerances 1e-9 (double) / 1e-4 (float), scaled by the conditioning '
+            '16 eps/cos(pitch) for extracted angles and 8 eps/max(sin el, 4 sqrt eps) for the acos-based elevation near the z axis; the '
+            'closed upper end 2pi of between0And2Pi is allowed only within one ulp below a multiple of 2pi.',
+            'DESIGN.md section 6, C10'),
     'C17': ('proof', TECH,
             'For EVERY interleaving of data stamps and heartbeats and every window W >= 1 (induction over event lists): the monitor\'s rate '
             'is 0 until W+1 stamps and then W*1e9/(s_n - s_(n-W)) unless a heartbeat timed out since the last stamp; a heartbeat times out iff '
